@@ -108,11 +108,103 @@ inductive Defect (maxKeys : Nat) (disallowUnknown : Bool) (ms : List Member) : P
   | arithmetic (kv lit : Bytes) (n : Nat) (ku s : Bytes) (e : Err) (hv : (kv, .num lit) ∈ vals ms)
       (hn : Size.parseUintLit lit = .ok n) (hu : (ku, .str s) ∈ units ms) (h : Size.newSize n s = .err e)
 
-/-- every member of `ms` is processed without error when read in this order from a fresh state -/
-def PrefixFine (disallowUnknown : Bool) (ms : List Member) : Prop :=
-  (vals ms).length ≤ 1 ∧ (units ms).length ≤ 1 ∧
-  (∀ m ∈ vals ms, ∃ lit n, m.2 = .num lit ∧ Size.parseUintLit lit = .ok n) ∧
-  (∀ m ∈ units ms, ∃ s, m.2 = .str s) ∧
-  (disallowUnknown = true → unknowns ms = [])
+/-- the members of `ms` read in this order without the key limit: the value and unit found, or the
+first error -/
+def runSteps (disallowUnknown : Bool) : Option Nat → Option Bytes → List Member → Outcome (Option Nat × Option Bytes)
+  | v, u, [] => .ok (v, u)
+  | v, u, m :: ms =>
+    match step disallowUnknown v u m with
+    | .ok (v', u') => runSteps disallowUnknown v' u' ms
+    | .err e => .err e
+    | .panic => .panic
+
+/-! ## concrete JSON text
+
+A small JSON document type and its compact rendering (single-byte separators, no white space).
+Numbers are integer literals, strings and keys are made of bytes that stand for themselves in a
+string literal; arrays and objects nest arbitrarily. -/
+
+/-- a byte that stands for itself inside a JSON string literal: printable ASCII except `"` and `\` -/
+def plainByte (c : Nat) : Bool := 32 ≤ c && c < 128 && c != 34 && c != 92
+
+def plain (s : Bytes) : Bool := s.all plainByte
+
+/-- `0`, or a digit string without leading zero -/
+def digitsLit (ds : Bytes) : Bool :=
+  match ds with
+  | [] => false
+  | [48] => true
+  | c :: t => c != 48 && isDigit c && allDigits t
+
+/-- a JSON integer literal: optional `-`, then `0` or a digit string without leading zero -/
+def intLit (lit : Bytes) : Bool :=
+  match lit with
+  | 45 :: t => digitsLit t
+  | _ => digitsLit lit
+
+inductive JVal where
+  | num (lit : Bytes)
+  | str (s : Bytes)
+  | tru | fls | null
+  | arr (xs : List JVal)
+  | obj (ms : List (Bytes × JVal))
+
+/-- what the object reader sees of a value -/
+def JVal.abs : JVal → MVal
+  | .num lit => .num lit
+  | .str s => .str s
+  | _ => .other
+
+mutual
+/-- JSON text of a value -/
+def JVal.render : JVal → Bytes
+  | .num lit => lit
+  | .str s => 34 :: (s ++ [34])
+  | .tru => [116, 114, 117, 101]
+  | .fls => [102, 97, 108, 115, 101]
+  | .null => [110, 117, 108, 108]
+  | .arr xs => 91 :: (renderElems xs ++ [93])
+  | .obj ms => 123 :: (renderMembers ms ++ [125])
+/-- `x1,x2,…` -/
+def renderElems : List JVal → Bytes
+  | [] => []
+  | x :: xs => x.render ++ renderElemsTail xs
+/-- `,x1,x2…` -/
+def renderElemsTail : List JVal → Bytes
+  | [] => []
+  | x :: xs => 44 :: (x.render ++ renderElemsTail xs)
+/-- `"k1":x1,"k2":x2,…` -/
+def renderMembers : List (Bytes × JVal) → Bytes
+  | [] => []
+  | (k, x) :: ms => 34 :: (k ++ 34 :: 58 :: (x.render ++ renderMembersTail ms))
+/-- `,"k1":x1,"k2":x2…` -/
+def renderMembersTail : List (Bytes × JVal) → Bytes
+  | [] => []
+  | (k, x) :: ms => 44 :: 34 :: (k ++ 34 :: 58 :: (x.render ++ renderMembersTail ms))
+end
+
+mutual
+/-- the document is within the fragment described above -/
+def JVal.wf : JVal → Bool
+  | .num lit => intLit lit
+  | .str s => plain s
+  | .tru => true
+  | .fls => true
+  | .null => true
+  | .arr xs => wfElems xs
+  | .obj ms => wfMembers ms
+def wfElems : List JVal → Bool
+  | [] => true
+  | x :: xs => x.wf && wfElems xs
+def wfMembers : List (Bytes × JVal) → Bool
+  | [] => true
+  | (k, x) :: ms => plain k && x.wf && wfMembers ms
+end
+
+/-- `{"k1":x1,…}` -/
+def renderObject (ms : List (Bytes × JVal)) : Bytes := 123 :: (renderMembers ms ++ [125])
+
+/-- the abstract member list of a concrete one -/
+def absMembers (ms : List (Bytes × JVal)) : List Member := ms.map fun m => (m.1, m.2.abs)
 
 end U.Props.C12
